@@ -20,6 +20,7 @@ def main():
     ap = argparse.ArgumentParser()
     ap.add_argument('seed'); ap.add_argument('prop'); ap.add_argument('dir')
     ap.add_argument('--checks'); ap.add_argument('--tier', default='quick'); ap.add_argument('--demo-flags', default='')
+    ap.add_argument('--repo', default='/repo', help='tree the patch is applied to for the check runs (a scratch worktree for triage; /repo for the recorded run)')
     a = ap.parse_args()
     patch = os.path.abspath(os.path.join(a.dir, 'patch.diff'))
     demo = os.path.join(a.dir, 'demo.rs')
@@ -54,9 +55,11 @@ def main():
     out['confirmed'] = confirmed
     # run the checks against /repo with the patch applied
     checks = (a.checks.split(',') if a.checks else [a.prop])
-    rc, o = sh('git -C /repo status --porcelain --untracked-files=no')
-    assert o.strip() == '', '/repo is not clean: ' + o
-    rc, o = sh('git -C /repo apply %s' % patch)
+    REPO = a.repo
+    if REPO != '/repo': ENV['SUCDS_REPO'] = REPO
+    rc, o = sh('git -C %s status --porcelain --untracked-files=no' % REPO)
+    assert o.strip() == '', '%s is not clean: ' % REPO + o
+    rc, o = sh('git -C %s apply %s' % (REPO, patch))
     assert rc == 0, o
     try:
         for c in checks:
@@ -73,9 +76,9 @@ def main():
                     break
             out['checks']['%s/%s' % (c, a.tier)] = res
     finally:
-        sh('git -C /repo checkout -- .')
-    rc, o = sh('git -C /repo status --porcelain --untracked-files=no')
-    assert o.strip() == '', '/repo not restored: ' + o
+        sh('git -C %s checkout -- .' % REPO)
+    rc, o = sh('git -C %s status --porcelain --untracked-files=no' % REPO)
+    assert o.strip() == '', 'tree not restored: ' + o
     out['caught_by'] = [k for k, v in out['checks'].items() if v['exit'] == 1]
     d = os.path.join(ROOT, 'seeded', a.seed)
     os.makedirs(d, exist_ok=True)
